@@ -2,6 +2,7 @@
    gapless. Only property theorems; proofs in Proofs/PoolIds.v, PoolFinal.v. *)
 From F1 Require Import Base.Prelude Model.Pool Proofs.PoolBase Proofs.PoolIds Proofs.PoolFinal.
 From Coq Require Import Sorting.Permutation.
+From F1 Require Import Model.ContPool Proofs.ContPoolProofs.
 
 (* In every reachable state the ids handed out are exactly k, k-1, ..., 1;
    the ids of started bodies together with those a worker is about to start
@@ -35,6 +36,46 @@ Proof.
   intros n maxit ticks sched s Ht. apply terminal_ids; [apply ids_exec, ids_init|exact Ht].
 Qed.
 Print Assumptions C03_exact.
+
+(* Users mode (continuous pool): the same for any number of users, any
+   schedule, any cancellation from outside ... *)
+Theorem C03_users_ids : forall n maxit sched,
+  let s := cexec (cinit n maxit) sched in
+  k_issued s = rdesc (length (k_issued s)) /\
+  Permutation (k_started s ++ flat_map ktransit (k_workers s)) (k_issued s) /\
+  (0 < k_max s -> Z.of_nat (length (k_issued s)) <= k_max s) /\
+  (cterminal s = true -> Permutation (k_started s) (rdesc (length (k_issued s)))).
+Proof.
+  intros n maxit sched s.
+  destruct (kids_exec sched _ (kids_init n maxit)) as [RG IT CP PM]. fold s in RG, IT, CP, PM. unfold kglen in CP.
+  repeat split; auto.
+  intros Ht. unfold cterminal in Ht. rewrite (k_all_done_transit _ Ht), app_nil_r in PM. rewrite <- RG. exact PM.
+Qed.
+Print Assumptions C03_users_ids.
+
+(* ... and when nobody cancels from outside, users keep iterating until the
+   limit stops them: a finished run with a limit N > 0 and at least one user
+   has started exactly N iterations. *)
+Theorem C03_users_exact : forall n maxit sched,
+  no_env_cancel sched -> (0 < n)%nat ->
+  let s := cexec (cinit n maxit) sched in
+  cterminal s = true -> 0 < k_max s /\ Z.of_nat (length (k_issued s)) = k_max s.
+Proof.
+  intros n maxit sched Hne Hn s Ht.
+  assert (HL : KLim s).
+  { unfold s. clear s Ht. generalize (klim_init n maxit). generalize (cinit n maxit).
+    induction sched as [|l ls IH]; intros st I; [exact I|].
+    inversion Hne as [|? ? Hl Hls]; subst. cbn [cexec fold_left].
+    destruct (cstep st l) as [st'|] eqn:E; [apply (IH Hls); eapply klim_step; eauto|apply (IH Hls); exact I]. }
+  assert (Hlen : length (k_workers s) = n) by (unfold s; rewrite k_workers_length_exec; cbn; apply repeat_length).
+  assert (Hd : exists i, nth_error (k_workers s) i = Some KDone).
+  { unfold cterminal in Ht. destruct (k_workers s) as [|w ws] eqn:Ew; [cbn in Hlen; lia|].
+    cbn [forallb] in Ht. apply andb_true_iff in Ht as [H1 _]. destruct w; try discriminate. exists 0%nat. reflexivity. }
+  destruct (kl_ctx s HL (kl_done s HL Hd)) as [Hm Hlt].
+  destruct (kids_exec sched _ (kids_init n maxit)) as [RG IT CP PM]. fold s in IT, CP. unfold kglen in *.
+  split; [exact Hm|]. destruct IT as [IT|IT]; [specialize (CP Hm); lia|lia].
+Qed.
+Print Assumptions C03_users_exact.
 
 Example C03_example :
   let s := pexec (pinit 3 2 [3])
